@@ -203,3 +203,45 @@ HOOKS['n_sec'] = [
 ]
 HOOKS['align_month'] = [(r'return fields', "USE(lemma_ordbound_REQ(f.y, f.m, 1), lemma_ordbound_ENS(f.y, f.m, 1), \"ordbound\");\nREVEAL_DAYORD(f.y, f.m, 1);\nREVEAL_DAYORD(f.y, f.m, f.d);\nREVEAL_VALIDD(f.y, f.m, f.d);\nREVEAL_VALIDD(f.y, f.m, 1);")]
 HOOKS['align_year'] = [(r'return fields', "USE(lemma_ordbound_REQ(f.y, 1, 1), lemma_ordbound_ENS(f.y, 1, 1), \"ordbound\");\nUSE(lemma_ordbound_REQ(f.y, f.m, f.d), lemma_ordbound_ENS(f.y, f.m, f.d), \"ordbound\");\nREVEAL_DAYORD(f.y, 1, 1);\nREVEAL_DAYORD(f.y, f.m, f.d);\nREVEAL_VALIDD(f.y, f.m, f.d);\nREVEAL_VALIDD(f.y, 1, 1);")]
+
+
+# --- C05: step -------------------------------------------------------------------------------------------
+def rng(x):
+    return use('dm_range', [x])
+
+
+S_SS = "(Z)(f.ss + n % 60)"
+S_M = "NSEC_M(f.mm + n / 60, f.ss + n % 60)"
+S_H = "NSEC_H(f.hh, f.mm + n / 60, f.ss + n % 60)"
+HOOKS['step_second'] = [(r'return impl :: n_sec \(', "BOUND_DAYORD(f.y, f.m, f.d);\n" + use('trunc', ['n']) + "\n" + use('validday', ['f.y', 'f.m', 'f.d']) + "\n" +
+    rng(S_SS) + "\n" + rng(S_M) + "\n" + rng(S_H) + "\n" +
+    rng("OSEC(f) + n") + "\n" + rng("FD60(OSEC(f) + n)") + "\n" + rng("FD60(FD60(OSEC(f) + n))") + "\n" +
+    use('dm_lin', ["OMIN(f) + (Z)(n / 60)", S_SS]) + "\n" + use('dm_lin', ["OHOUR(f)", "(Z)(f.mm + n / 60) + FD60(%s)" % S_SS]) + "\n" +
+    use('dm_lin', ["ODAY(f)", S_H]) + "\n" +
+    cut("(FD24(FD60(FD60(OSEC(f) + n))) == ODAY(f) + FD24(%s))" % S_H, "ghost cut: day carried out of the new second count") + "\n" +
+    use('nmonpre', ['f.y', 'f.m', 'f.d', "FD24(%s)" % S_H]))]
+M_M = "(Z)(f.mm + n % 60)"
+M_H = "NMIN_H(f.hh + n / 60, 0, f.mm + n % 60)"
+HOOKS['step_minute'] = [(r'return impl :: n_min \(', "BOUND_DAYORD(f.y, f.m, f.d);\n" + use('trunc', ['n']) + "\n" + use('validday', ['f.y', 'f.m', 'f.d']) + "\n" +
+    rng(M_M) + "\n" + rng(M_H) + "\n" + rng("OMIN(f) + n") + "\n" + rng("FD60(OMIN(f) + n)") + "\n" +
+    use('dm_lin', ["OHOUR(f) + (Z)(n / 60)", M_M]) + "\n" + use('dm_lin', ["ODAY(f)", M_H]) + "\n" +
+    cut("(FD24(FD60(OMIN(f) + n)) == ODAY(f) + FD24(%s))" % M_H, "ghost cut: day carried out of the new minute count") + "\n" +
+    use('nmonpre', ['f.y', 'f.m', 'f.d', "FD24(%s)" % M_H]))]
+H_H = "(Z)(f.hh + n % 24)"
+HOOKS['step_hour'] = [(r'return impl :: n_hour \(', "BOUND_DAYORD(f.y, f.m, f.d);\n" + use('trunc', ['n']) + "\n" + use('validday', ['f.y', 'f.m', 'f.d']) + "\n" +
+    rng(H_H) + "\n" + rng("OHOUR(f) + n") + "\n" + use('dm_lin', ["ODAY(f) + (Z)(n / 24)", H_H]) + "\n" +
+    cut("(FD24(OHOUR(f) + n) == ODAY(f) + (Z)(n / 24) + FD24(%s))" % H_H, "ghost cut: day carried out of the new hour count") + "\n" +
+    use('nmonpre', ['f.y', 'f.m', 'f.d + n / 24', "(Z)0 + FD24(%s)" % H_H]))]
+HOOKS['step_day'] = [(r'return impl :: n_day \(', "BOUND_DAYORD(f.y, f.m, f.d);\n" + use('validday', ['f.y', 'f.m', 'f.d']) + "\n" + use('valid28', ['f.y', 'f.m', '1']) + "\nREVEAL_NDAY_PRE(f.y, f.m, f.d, n);\nREVEAL_DAYORD(f.y, f.m, 1);\nREVEAL_DAYORD(f.y, f.m, f.d);")]
+
+
+# --- C05: difference ------------------------------------------------------------------------------------
+_B2 = "BOUND_DAYORD(f1.y, f1.m, f1.d);\nBOUND_DAYORD(f2.y, f2.m, f2.d);"
+GHOST['difference_hour'] = {0: _B2 + "\n" + "USE(lemma_fits_REQ(UDIFF_day(f1, f2), f1.hh - f2.hh, 24), lemma_fits_ENS(UDIFF_day(f1, f2), f1.hh - f2.hh, 24), \"fits\");"}
+GHOST['difference_minute'] = {0: _B2 + "\nREVEAL_MUL(UDIFF_day(f1, f2));\n" + "USE(lemma_fits_REQ(UDIFF_hour(f1, f2), f1.mm - f2.mm, 60), lemma_fits_ENS(UDIFF_hour(f1, f2), f1.mm - f2.mm, 60), \"fits\");"}
+GHOST['difference_second'] = {0: _B2 + "\nREVEAL_MUL(UDIFF_day(f1, f2));\nREVEAL_MUL(UDIFF_hour(f1, f2));\n" + "USE(lemma_fits_REQ(UDIFF_minute(f1, f2), f1.ss - f2.ss, 60), lemma_fits_ENS(UDIFF_minute(f1, f2), f1.ss - f2.ss, 60), \"fits\");"}
+for _t in ('second', 'minute', 'hour', 'day'):
+    GHOST['ct_%s_diff' % _t] = {0: "BOUND_DAYORD(lhs.y, lhs.m, lhs.d);\nBOUND_DAYORD(rhs.y, rhs.m, rhs.d);\nUSE_UDIFF(lhs, rhs);"}
+    GHOST['ct_%s_plus' % _t] = {0: "BOUND_DAYORD(a.y, a.m, a.d);"}
+
+GHOST['scale_add'] = {0: "REVEAL_MUL((Z)v);"}
